@@ -238,15 +238,20 @@ namespace Dune {
               typename EpsilonType<T>::Type epsilon = (DefaultEpsilon<T, cstyle>::value())) {
           // first get an approximation
           I lower = I(val);
-          I upper;
           if(eq<T, cstyle>(T(lower), val, epsilon)) return lower;
-          if(T(lower) > val) { upper = lower; lower--; }
-          else upper = lower+1;
-          // the integer below val is upper-1; its distance to val is computed from upper because
-          // lower has wrapped around if I is unsigned and val lies in (-1,0)
-          if(le<T, cstyle>(val - (T(upper) - T(1)), T(upper) - val, epsilon))
-            return lower;
-          else return upper;
+          // I(val) is the neighbour of val on the side of zero.  The other neighbour is computed in I only
+          // when it is the result: it is not a value of I if val lies beyond the largest or the smallest
+          // value of I, or in (-1,0) for an unsigned I.  Its distance to val is computed in T.
+          if(T(lower) > val) {
+            if(le<T, cstyle>(val - (T(lower) - T(1)), T(lower) - val, epsilon))
+              return lower - 1;
+            else return lower;
+          }
+          else {
+            if(le<T, cstyle>(val - T(lower), (T(lower) + T(1)) - val, epsilon))
+              return lower;
+            else return lower + 1;
+          }
         }
       };
       template<class I, class T, CmpStyle cstyle>
@@ -256,15 +261,20 @@ namespace Dune {
               typename EpsilonType<T>::Type epsilon = (DefaultEpsilon<T, cstyle>::value())) {
           // first get an approximation
           I lower = I(val);
-          I upper;
           if(eq<T, cstyle>(T(lower), val, epsilon)) return lower;
-          if(T(lower) > val) { upper = lower; lower--; }
-          else upper = lower+1;
-          // the integer below val is upper-1; its distance to val is computed from upper because
-          // lower has wrapped around if I is unsigned and val lies in (-1,0)
-          if(lt<T, cstyle>(val - (T(upper) - T(1)), T(upper) - val, epsilon))
-            return lower;
-          else return upper;
+          // I(val) is the neighbour of val on the side of zero.  The other neighbour is computed in I only
+          // when it is the result: it is not a value of I if val lies beyond the largest or the smallest
+          // value of I, or in (-1,0) for an unsigned I.  Its distance to val is computed in T.
+          if(T(lower) > val) {
+            if(lt<T, cstyle>(val - (T(lower) - T(1)), T(lower) - val, epsilon))
+              return lower - 1;
+            else return lower;
+          }
+          else {
+            if(lt<T, cstyle>(val - T(lower), (T(lower) + T(1)) - val, epsilon))
+              return lower;
+            else return lower + 1;
+          }
         }
       };
       template<class I, class T, CmpStyle cstyle>
